@@ -17,3 +17,67 @@ Proof.
   repeat match goal with Hx : (_ <=? _) = true |- _ => apply Z.leb_le in Hx end.
   repeat split; try assumption; lia.
 Qed.
+
+(* ---- C04 ------------------------------------------------------------------------------------------------ *)
+Ltac nil_split H :=
+  repeat match type of H with (_ ++ _) = [] => let H1 := fresh "N" in apply app_nil_both in H; destruct H as [H1 H] end.
+Ltac nil_all :=
+  repeat match goal with Hx : (_ ++ _) = [] |- _ => let H1 := fresh "N" in let H2 := fresh "N" in apply app_nil_both in Hx; destruct Hx as [H1 H2] end;
+  repeat match goal with Hx : spec_if _ _ = [] |- _ => apply spec_if_nil in Hx end;
+  repeat match goal with Hx : (_ && _) = true |- _ => let H1 := fresh "B" in let H2 := fresh "B" in apply andb_prop in Hx; destruct Hx as [H1 H2] end;
+  repeat match goal with
+         | Hx : (_ <=? _) = true |- _ => apply Z.leb_le in Hx
+         | Hx : (_ <? _) = true |- _ => apply Z.ltb_lt in Hx
+         | Hx : (_ =? _) = true |- _ => apply Z.eqb_eq in Hx
+         end.
+
+(* no withdrawal or claim was refused for lack of funds *)
+Lemma c04_step_not_refused before op signer res params after decs :
+  c04_step before (Step op signer res params after decs) = [] -> res <> 3.
+Proof.
+  unfold c04_step. cbn [st_result st_op st_after st_params]. intros H. nil_all.
+  match goal with Hx : negb (res =? 3) = true |- _ => apply negb_true_iff in Hx; apply Z.eqb_neq in Hx; exact Hx end.
+Qed.
+
+(* at every block boundary: oracle account = unpaid tips, the tips pool covers the whole-unit credits and the
+   credits up to sub-unit dust, the bridge account is empty; the end blocker only moved coins into the tips pool *)
+Lemma c04_step_sound_endblock before signer params after decs :
+  c04_step before (Step "EndBlock" signer 0 params after decs) = [] ->
+  sp_oracle after = sp_oracle_owed after /\ sp_tips_floor after <= sp_tips after /\
+  sp_tips_scaled after - sp_tips after * P <= 1000000 /\ sp_bridge after = 0 /\
+  sp_oracle after + sp_tips after + sp_tbr after = sp_oracle before + sp_tips before + sp_tbr before /\
+  sp_oracle after <= sp_oracle before /\ sp_tbr after <= sp_tbr before.
+Proof.
+  unfold c04_step, c04_boundary. cbn [st_result st_op st_after st_params String.eqb Ascii.eqb Bool.eqb andb Z.eqb]. intros H. nil_all.
+  repeat split; assumption.
+Qed.
+
+Lemma c04_step_sound_tip before signer a after decs :
+  c04_step before (Step "Tip" signer 0 [a] after decs) = [] ->
+  sp_oracle after - sp_oracle before = a - Z.quot (a * 2) 100 /\
+  sp_oracle_owed after - sp_oracle_owed before = a - Z.quot (a * 2) 100.
+Proof.
+  unfold c04_step. cbn [st_result st_op st_after st_params String.eqb Ascii.eqb Bool.eqb andb Z.eqb]. intros H. nil_all. split; assumption.
+Qed.
+
+Lemma c04_step_sound_withdraw before signer params after decs :
+  c04_step before (Step "WithdrawTip" signer 0 params after decs) = [] ->
+  sp_tips before - sp_tips after = (sp_bonded after + sp_notbonded after) - (sp_bonded before + sp_notbonded before) /\
+  sp_tips after < sp_tips before.
+Proof.
+  unfold c04_step. cbn [st_result st_op st_after st_params String.eqb Ascii.eqb Bool.eqb andb Z.eqb]. intros H. nil_all. split; assumption.
+Qed.
+
+(* no voter reward was paid twice to one account for one dispute *)
+Lemma nodup_pairs_sound l : nodup_pairs l = true -> NoDup l.
+Proof.
+  induction l as [|x t IH]; cbn [nodup_pairs]; intros H; [constructor|].
+  apply andb_prop in H. destruct H as [H1 H2]. constructor; [|apply IH; exact H2].
+  intros Hin. apply negb_true_iff in H1. assert (existsb (fun y => (fst x =? fst y) && (snd x =? snd y)) t = true); [|congruence].
+  apply existsb_exists. exists x. split; [exact Hin|]. rewrite !Z.eqb_refl. reflexivity.
+Qed.
+
+Lemma c04_hist_once init steps : c04_hist_check (Hist init steps) = [] -> NoDup (reward_claims steps).
+Proof.
+  unfold c04_hist_check. intros H. apply app_nil_both in H. destruct H as [_ H]. apply spec_if_nil in H. apply nodup_pairs_sound. exact H.
+Qed.
